@@ -8,10 +8,13 @@ for p in sorted(glob.glob(os.path.join(os.path.dirname(os.path.abspath(__file__)
         continue
     c = m.get("check", {})
     kind = "concrete input" if m.get("detected_with_concrete_input") else ("no-failing-input-found" if m.get("detected") else "MISSED")
-    rows.append((m["id"], m["property"], "yes" if m.get("confirmed") else "NO", kind, c.get("verif_commit", ""), c.get("wall_s", "")))
-print("| seeded change | check run | confirmed (demo+600 tests) | result | /verif commit | wall s |")
-print("|---|---|---|---|---|---|")
+    hist = "; ".join("%s at %s" % (h["result"], h.get("verif_commit")) for h in m.get("history", []) if h["result"] != kind) or "-"
+    if m.get("no_longer_applies"):
+        hist += " (patch no longer applies after a later fix)"
+    rows.append((m["id"], m["property"], "yes" if m.get("confirmed") else "NO", kind, c.get("verif_commit", ""), c.get("wall_s", ""), hist))
+print("| seeded change | check run | confirmed (demo+600 tests) | result | /verif commit | wall s | earlier results (before the check was strengthened) |")
+print("|---|---|---|---|---|---|---|")
 for r in rows:
-    print("| %s | %s | %s | %s | %s | %s |" % r)
+    print("| %s | %s | %s | %s | %s | %s | %s |" % r)
 print()
 print("%d seeded, %d detected, %d with a concrete failing input" % (len(rows), sum(r[3] != "MISSED" for r in rows), sum(r[3] == "concrete input" for r in rows)))
